@@ -31,7 +31,7 @@ InitS ==
       ts |-> MCInit, tk |-> MCTasks, gr |-> MCGraphs,
       cl |-> Flatten([p \in 1..NPl |-> [w \in 1..Len(MCW.pools[p]) |->
                 [p |-> p, w |-> w, av |-> [i \in 1..Len(MCW.pools[p][w]) |-> MCW.pools[p][w][i].cap],
-                 occ |-> <<>>, inpool |-> <<>>]]]),
+                 occ |-> <<>>, inpool |-> <<>>, pend |-> <<>>, avl |-> <<>>]]]),
       pd |-> [rt |-> 0, decs |-> <<>>] ]
 
 Init == S = InitS /\ phase = "run" /\ ninv = 0
@@ -41,13 +41,13 @@ Offered(St) == Schedulable(St, St.now, Frontier.la, Frontier.retract, Frontier.r
 
 \* the answers the policy may give for one task: 0 = no answer
 Options(St, t) ==
-    {[kind |-> 0, t |-> t, placed |-> FALSE, pool |-> 0, wk |-> 0, sd |-> NoSD, tm |-> -1],
-     [kind |-> 4, t |-> t, placed |-> FALSE, pool |-> 0, wk |-> 0, sd |-> NoSD, tm |-> -1],
-     [kind |-> 3, t |-> t, placed |-> FALSE, pool |-> 0, wk |-> 0, sd |-> NoSD, tm |-> -1]}
+    {[kind |-> 0, t |-> t, placed |-> FALSE, pool |-> 0, wk |-> 0, sd |-> NoSD, tm |-> -1, pr |-> 0],
+     [kind |-> 4, t |-> t, placed |-> FALSE, pool |-> 0, wk |-> 0, sd |-> NoSD, tm |-> -1, pr |-> 0],
+     [kind |-> 3, t |-> t, placed |-> FALSE, pool |-> 0, wk |-> 0, sd |-> NoSD, tm |-> -1, pr |-> 0]}
     \cup
     {[kind |-> 4, t |-> t, placed |-> TRUE, pool |-> p, wk |-> 0,
       sd |-> [dem |-> St.tk[t].strats[k].dem, rt |-> St.tk[t].strats[k].rt, bs |-> St.tk[t].strats[k].bs, bid |-> 0],
-      tm |-> St.now + SchedRt + d]
+      tm |-> St.now + SchedRt + d, pr |-> 0]
         : p \in 1..NPl, k \in 1..Len(St.tk[t].strats), d \in Delays}
 
 \* a SCHEDULED task whose pending placement fires before this answer is applied is left alone (answering
